@@ -502,6 +502,155 @@ pub fn exhaustive_item(i: u64, l: &mut Local) -> Result<(), (serde_json::Value, 
     Ok(())
 }
 
+// ---------------------------------------------------------------------------------------------------
+// instruction level: the tick arrays the PROGRAM writes through its instructions (fixed and dynamic side by side in one pool, positions
+// whose two bounds lie in arrays of different kinds) answer like the fixed array with the same contents and keep the encoding rules
+
+/// one tick-array account as the program left it: encoding rules, and all accessors against the harness's own decoding
+pub fn verify_program_array(data: &[u8], spacing: u16, l: &mut Local) -> Result<(), String> {
+    let a = decode::tick_array(data)?;
+    let start = a.start_tick_index;
+    let ts = spacing as i32;
+    let init: Vec<usize> = (0..88).filter(|i| a.ticks[*i].initialized).collect();
+    if a.dynamic {
+        let mut bm = 0u128;
+        for i in &init {
+            bm |= 1u128 << i;
+        }
+        if a.bitmap != bm {
+            return Err(format!("bitmap {:#x} but the initialized slots are {:#x}", a.bitmap, bm));
+        }
+        if a.used_len != 148 + 112 * init.len() || data.len() != a.used_len {
+            return Err(format!("account length {} / used length {} for {} initialized ticks (148 + 112 n = {})", data.len(), a.used_len, init.len(), 148 + 112 * init.len()));
+        }
+    }
+    // the fixed array with the same contents
+    let mut fixed = vec![0u8; decode::FIXED_TICK_ARRAY_LEN];
+    fixed[..8].copy_from_slice(FixedTickArray::DISCRIMINATOR);
+    fixed[8..12].copy_from_slice(&start.to_le_bytes());
+    fixed[9956..9988].copy_from_slice(&a.whirlpool.to_bytes());
+    for i in &init {
+        let t = &a.ticks[*i];
+        let o = 12 + 113 * i;
+        fixed[o] = 1;
+        fixed[o + 1..o + 17].copy_from_slice(&t.liquidity_net.to_le_bytes());
+        fixed[o + 17..o + 33].copy_from_slice(&t.liquidity_gross.to_le_bytes());
+        fixed[o + 33..o + 49].copy_from_slice(&t.fee_growth_outside_a.to_le_bytes());
+        fixed[o + 49..o + 65].copy_from_slice(&t.fee_growth_outside_b.to_le_bytes());
+        for k in 0..3 {
+            fixed[o + 65 + 16 * k..o + 81 + 16 * k].copy_from_slice(&t.reward_growths_outside[k].to_le_bytes());
+        }
+    }
+    if decode::tick_array(&fixed)?.ticks != a.ticks {
+        return Err("harness: fixed image does not decode to the same ticks".into());
+    }
+    let mut buf = data.to_vec();
+    buf.resize(DYN_BUF.max(data.len()), 0);
+    let conv_a = |t: whirlpool::state::Tick| TickD {
+        initialized: t.initialized,
+        liquidity_net: t.liquidity_net,
+        liquidity_gross: t.liquidity_gross,
+        fee_growth_outside_a: t.fee_growth_outside_a,
+        fee_growth_outside_b: t.fee_growth_outside_b,
+        reward_growths_outside: t.reward_growths_outside,
+    };
+    let conv_p = |t: &whirlpool::pinocchio::verif_export::whirlpool::tick_array::tick::MemoryMappedTick| TickD {
+        initialized: t.initialized(),
+        liquidity_net: t.liquidity_net(),
+        liquidity_gross: t.liquidity_gross(),
+        fee_growth_outside_a: t.fee_growth_outside_a(),
+        fee_growth_outside_b: t.fee_growth_outside_b(),
+        reward_growths_outside: t.reward_growths_outside(),
+    };
+    let fx: &FixedTickArray = bytemuck::from_bytes(&fixed[8..]);
+    for slot in 0..88i32 {
+        let tick = start + slot * ts;
+        if !(MIN_TICK..=MAX_TICK).contains(&tick) {
+            continue;
+        }
+        let want = a.ticks[slot as usize].clone();
+        let reference = fx.get_tick(tick, spacing).map(conv_a).map_err(anchor_code);
+        if reference.as_ref().ok() != Some(&want) {
+            return Err(format!("harness: fixed reference get_tick({tick}) = {reference:?}"));
+        }
+        let got: [Result<TickD, u64>; 2] = if a.dynamic {
+            let p = unsafe { &*(buf.as_ptr() as *const MemoryMappedDynamicTickArray) };
+            [DynamicTickArrayLoader::load(&buf[8..]).get_tick(tick, spacing).map(conv_a).map_err(anchor_code), p.get_tick(tick, spacing).map(conv_p).map_err(u64::from)]
+        } else {
+            let p = unsafe { &*(buf.as_ptr() as *const MemoryMappedFixedTickArray) };
+            let t: &FixedTickArray = bytemuck::from_bytes(&buf[8..8 + 9980]);
+            [t.get_tick(tick, spacing).map(conv_a).map_err(anchor_code), p.get_tick(tick, spacing).map(conv_p).map_err(u64::from)]
+        };
+        for (i, g) in got.iter().enumerate() {
+            if g.as_ref().ok() != Some(&want) {
+                return Err(format!("get_tick({tick}) through the {} accessor on the program-written {} array: {g:?}, the fixed array with the same contents gives {want:?}", ["Anchor", "Pinocchio"][i], if a.dynamic { "dynamic" } else { "fixed" }));
+            }
+        }
+        for a_to_b in [true, false] {
+            let r_fixed = fx.get_next_init_tick_index(tick, spacing, a_to_b).map_err(anchor_code);
+            let r_prog = if a.dynamic {
+                DynamicTickArrayLoader::load(&buf[8..]).get_next_init_tick_index(tick, spacing, a_to_b).map_err(anchor_code)
+            } else {
+                let t: &FixedTickArray = bytemuck::from_bytes(&buf[8..8 + 9980]);
+                t.get_next_init_tick_index(tick, spacing, a_to_b).map_err(anchor_code)
+            };
+            if r_fixed != r_prog {
+                return Err(format!("next initialized tick from {tick} (a_to_b={a_to_b}): program-written array answers {r_prog:?}, the fixed array with the same contents {r_fixed:?}"));
+            }
+        }
+    }
+    l.count(if a.dynamic { "program_written_dynamic_arrays_verified" } else { "program_written_fixed_arrays_verified" });
+    if a.dynamic && !init.is_empty() {
+        l.count("program_written_dynamic_arrays_with_initialized_ticks");
+    }
+    Ok(())
+}
+
+#[derive(Default)]
+pub struct ArrayMonitor {
+    pub mixed_positions: u32,
+    pub checks: u32,
+}
+
+impl super::hist::Monitor for ArrayMonitor {
+    fn after(&mut self, h: &crate::history::Hist, _pre: &crate::history::Snap, _post: &crate::history::Snap, op: &crate::history::Op, r: &crate::history::OpResult, l: &mut Local) -> Result<(), String> {
+        use crate::history::{Did, Op};
+        if r.did != Did::Ok || !matches!(op.effective(), Op::Increase { .. } | Op::Decrease { .. } | Op::Reposition { .. } | Op::Swap { .. } | Op::SwapBack { .. } | Op::SwapExact { .. }) {
+            return Ok(());
+        }
+        let pk = h.w.pools[h.pool].key;
+        for s in &h.array_starts {
+            let data = h.w.bank.get(&crate::world::tick_array_pda(&pk, *s)).data;
+            verify_program_array(&data, h.spec.tick_spacing, l).map_err(|e| format!("tick array {s} (tick spacing {}): {e}", h.spec.tick_spacing))?;
+        }
+        self.checks += 1;
+        if let (Some(p), Op::Increase { .. } | Op::Decrease { .. } | Op::Reposition { .. }) = (r.pos, op.effective()) {
+            let info = &h.w.positions[p];
+            let ts = h.spec.tick_spacing;
+            let kind = |t: i32| crate::decode::tick_array(&h.w.bank.get(&crate::world::tick_array_pda(&pk, crate::world::array_start(t, ts))).data).map(|a| a.dynamic).ok();
+            if let (Some(a), Some(b2)) = (kind(info.lower), kind(info.upper)) {
+                if a != b2 {
+                    self.mixed_positions += 1;
+                }
+            }
+        }
+        Ok(())
+    }
+}
+
+pub fn check_program_arrays(case: &crate::history::HistoryCase, l: &mut Local) -> Result<(), String> {
+    let mut m = ArrayMonitor::default();
+    let stats = super::hist::run_history(case, &mut [&mut m], l)?;
+    super::hist::count_stats(&stats, l);
+    l.count_n("array_sweeps", m.checks as u64);
+    l.count_n("liquidity_changes_of_positions_bounded_in_arrays_of_different_kinds", m.mixed_positions as u64);
+    if m.mixed_positions > 0 && stats.dynamic_arrays > 0 {
+        l.nontrivial(hash_of(case));
+        l.sample(|| json!({"spec": case.spec, "n_ops": case.ops.len(), "stats": format!("{stats:?}")}));
+    }
+    Ok(())
+}
+
 pub fn def() -> CheckDef {
     CheckDef {
         id: "C13",
@@ -510,7 +659,7 @@ pub fn def() -> CheckDef {
                dynamic, Pinocchio fixed, Pinocchio dynamic); after every update all four buffers are decoded by the harness's own reader and compared with the map, \
                dynamic encodings must be well formed (bitmap == initialized set, 113/1 bytes per slot, used length 148+112n) and byte-equal between Anchor and \
                Pinocchio; answers and error codes must agree.  Exhaustive part: every subset of the slot set {0,1,63,64,65,86,87} as initial state x every single \
-               op on those slots, for 4 (spacing, start) configurations incl. the array straddling the minimum tick.  One random sequence in six starts from an array with all but 0..3 slots initialized (filled in ascending, descending or stride order), so the completely full array and its 10 004-byte encoding are reached; one in seven also runs long regular stretches first (fill all, drain all, 80-100 initialize/de-initialize cycles of one slot), which move the bytes of removed ticks through the slack behind the used part of the buffer.  Non-trivial random sequence = >=1 initialize \
+               op on those slots, for 4 (spacing, start) configurations incl. the array straddling the minimum tick.  One random sequence in six starts from an array with all but 0..3 slots initialized (filled in ascending, descending or stride order), so the completely full array and its 10 004-byte encoding are reached; one in seven also runs long regular stretches first (fill all, drain all, 80-100 initialize/de-initialize cycles of one slot), which move the bytes of removed ticks through the slack behind the used part of the buffer.  Instruction level (program_written_arrays): generated histories through the real entrypoint on pools holding fixed and dynamic arrays side by side; after every liquidity change and swap every tick-array ACCOUNT of the pool must keep the encoding rules (bitmap == initialized slots, account length == 148 + 112 n) and answer get_tick (Anchor and Pinocchio accessors) and next-initialized queries from every slot in both directions exactly like the fixed array with the same contents.  Non-trivial random sequence = >=1 initialize \
                and >=1 de-initialize of a slot with initialized slots on both sides.",
         assumptions: vec!["H1 re-export hook for the Pinocchio types", "buffers carry the 10 KiB slack the loaders assume; de-initializing updates are all-default (what the program produces)"],
         subs: vec![
@@ -534,6 +683,7 @@ pub fn def() -> CheckDef {
                 }),
             },
             sub("random_sequences", 200_000, 5_000_000, case_strategy, |c: &ArrCase, l: &mut Local| check_case(c, l)),
+            sub("program_written_arrays", 12_000, 300_000, || crate::history::history_strategy(false, false, 30), |c: &crate::history::HistoryCase, l: &mut Local| check_program_arrays(c, l)),
         ],
     }
 }
